@@ -6,6 +6,13 @@ ids = [p['id'] for p in props]
 
 # id -> (level, technique, text, note)
 CLAIMED = {
+ "C18": ("exploration", "reload twin: original vs re-loaded database compared on metadata, bit-exact rows, index definitions and index-driven queries",
+         "Databases over all supported column types, one hard value class per case, with user indexes and prior DML are saved and loaded in all three native formats and compared with the original.",
+         "Original in-memory database is the oracle."),
+ "C19": ("exploration", "reload twin for the SQL dump: original vs load_sql_dump(save_sql_dump(db)) compared on column names and bit-exact rows",
+         "The same generated databases go through the SQL dump writer and reader; any load error or row difference is a violation.",
+         "Column type spelling is not compared."),
+
  "C13": ("exploration", "snapshot-equality monitor over listings, row multisets and index-driven probe queries around BEGIN .. ROLLBACK/COMMIT",
          "Observables taken before BEGIN (resp. before COMMIT) are compared with those after ROLLBACK (resp. COMMIT) for random in-transaction histories of DML and DDL.",
          "Six fixed probe queries stand for 'any query, including index-driven ones'."),
